@@ -1,11 +1,454 @@
 //! Native statements of the properties over the public API of the real crate (used for witness search and replay only).
-use crate::json::J;
+use crate::cfg::*;
+use crate::json::{hex, J};
 use crate::touch;
+use rtcp_types::prelude::*;
+use rtcp_types::*;
+use std::panic::{catch_unwind, AssertUnwindSafe};
 
 pub fn check(w: &J) -> Result<(), String> {
     let prop = w.str("prop");
-    match prop.as_str() {
+    let r = catch_unwind(AssertUnwindSafe(|| check_inner(&prop, w)));
+    match r {
+        Ok(r) => r,
+        Err(p) => {
+            let msg = if let Some(s) = p.downcast_ref::<&str>() {
+                s.to_string()
+            } else if let Some(s) = p.downcast_ref::<String>() {
+                s.clone()
+            } else {
+                "?".to_string()
+            };
+            Err(format!("panic: {}", msg))
+        }
+    }
+}
+
+fn check_inner(prop: &str, w: &J) -> Result<(), String> {
+    match prop {
         "C01" => touch::touch_all(&w.bytes("bytes")),
+        "C06" => c06(&Cfg::from_json(w.get("cfg").unwrap_or(&J::Null))),
+        "C17" => c17(&Cfg::from_json(w.get("cfg").unwrap_or(&J::Null))),
+        "C07" => c07(&Cfg::from_json(w.get("cfg").unwrap_or(&J::Null))),
+        "C16" => c16(&Cfg::from_json(w.get("cfg").unwrap_or(&J::Null))),
+        "C02" | "C03" | "C04" | "C05" => roundtrip(&Cfg::from_json(w.get("cfg").unwrap_or(&J::Null))),
+        "C14" => c14(&Cfg::from_json(w.get("cfg").unwrap_or(&J::Null))),
         _ => Ok(()),
     }
+}
+
+fn write(cfg: &Cfg, buf: &mut [u8]) -> (Result<usize, RtcpWriteError>, Result<usize, RtcpWriteError>) {
+    with_writer(cfg, &mut |b: &dyn RtcpPacketWriter| {
+        let size = b.calculate_size();
+        // RtcpPacketWriterExt::write_into is generic (not object safe): replicate its documented steps through the
+        // object-safe methods only when the buffer is large enough, otherwise go through the typed path below
+        (size, write_dyn(b, buf))
+    })
+}
+
+fn write_dyn(b: &dyn RtcpPacketWriter, buf: &mut [u8]) -> Result<usize, RtcpWriteError> {
+    // `write_into` exists for every `T: RtcpPacketWriter`; `&dyn RtcpPacketWriter` is not `Sized`-generic, so wrap it
+    struct W<'a>(&'a dyn RtcpPacketWriter);
+    impl<'a> std::fmt::Debug for W<'a> {
+        fn fmt(&self, f: &mut std::fmt::Formatter<'_>) -> std::fmt::Result {
+            self.0.fmt(f)
+        }
+    }
+    impl<'a> RtcpPacketWriter for W<'a> {
+        fn calculate_size(&self) -> Result<usize, RtcpWriteError> {
+            self.0.calculate_size()
+        }
+        fn write_into_unchecked(&self, buf: &mut [u8]) -> usize {
+            self.0.write_into_unchecked(buf)
+        }
+        fn get_padding(&self) -> Option<u8> {
+            self.0.get_padding()
+        }
+    }
+    W(b).write_into(buf)
+}
+
+/// C06: announced size == written size, for buffer lengths 0..=n+slack
+pub fn c06(cfg: &Cfg) -> Result<(), String> {
+    let size = with_writer(cfg, &mut |b: &dyn RtcpPacketWriter| b.calculate_size());
+    match size {
+        Ok(n) => {
+            if !matches!(cfg, Cfg::Compound(_)) && n % 4 != 0 {
+                return Err(format!("announced size {} is not a multiple of 4", n));
+            }
+            let lens: Vec<usize> = if n <= 64 { (0..=n + 5).collect() } else { vec![0, 1, n / 2, n - 1, n, n + 1, n + 7] };
+            for l in lens {
+                let mut buf = vec![0xa5u8; l];
+                let (_, r) = write(cfg, &mut buf);
+                if l >= n {
+                    match r {
+                        Ok(m) if m == n => {}
+                        other => return Err(format!("calculate_size = Ok({}) but write_into(len {}) = {:?}", n, l, other)),
+                    }
+                } else {
+                    match r {
+                        Err(RtcpWriteError::OutputTooSmall(m)) if m == n => {}
+                        other => return Err(format!("calculate_size = Ok({}) but write_into(len {}) = {:?}", n, l, other)),
+                    }
+                }
+            }
+            Ok(())
+        }
+        Err(e) => {
+            let mut buf = vec![0u8; 64];
+            let (_, r) = write(cfg, &mut buf);
+            if r != Err(e) {
+                return Err(format!("calculate_size failed but write_into = {:?}", r));
+            }
+            Ok(())
+        }
+    }
+}
+
+/// C17: written bytes do not depend on previous buffer contents; bytes beyond n and failed writes leave the buffer alone
+pub fn c17(cfg: &Cfg) -> Result<(), String> {
+    let size = with_writer(cfg, &mut |b: &dyn RtcpPacketWriter| b.calculate_size());
+    let n = match size {
+        Ok(n) => n,
+        Err(_) => {
+            let mut buf = vec![0x5au8; 40];
+            let before = buf.clone();
+            let _ = write(cfg, &mut buf);
+            if buf != before {
+                return Err("failed write modified the buffer".into());
+            }
+            return Ok(());
+        }
+    };
+    let mut a = vec![0x00u8; n + 9];
+    let mut b = vec![0xffu8; n + 9];
+    for (i, x) in b.iter_mut().enumerate() {
+        *x = 0xff ^ (i as u8).wrapping_mul(37);
+    }
+    let b0 = b.clone();
+    let (_, ra) = write(cfg, &mut a);
+    let (_, rb) = write(cfg, &mut b);
+    if ra != Ok(n) || rb != Ok(n) {
+        return Err(format!("write failed: {:?} {:?}", ra, rb));
+    }
+    if a[..n] != b[..n] {
+        let i = (0..n).find(|&i| a[i] != b[i]).unwrap();
+        return Err(format!("byte {} of {} depends on the previous buffer contents ({:02x} vs {:02x})", i, n, a[i], b[i]));
+    }
+    if a[n..].iter().any(|&x| x != 0) || b[n..] != b0[n..] {
+        return Err("bytes beyond the reported size were modified".into());
+    }
+    if n > 0 {
+        let mut small = vec![0x77u8; n - 1];
+        let before = small.clone();
+        let _ = write(cfg, &mut small);
+        if small != before {
+            return Err("a too-small write modified the buffer".into());
+        }
+    }
+    Ok(())
+}
+
+fn built(cfg: &Cfg) -> Option<Vec<u8>> {
+    let size = with_writer(cfg, &mut |b: &dyn RtcpPacketWriter| b.calculate_size()).ok()?;
+    let mut buf = vec![0xccu8; size];
+    let (_, r) = write(cfg, &mut buf);
+    r.ok()?;
+    Some(buf)
+}
+
+/// C07: bytes equal the independent encoder's image (FIR entries in any order)
+pub fn c07(cfg: &Cfg) -> Result<(), String> {
+    let got = match built(cfg) {
+        Some(b) => b,
+        None => return Ok(()),
+    };
+    let want = match ref_encode(cfg) {
+        Some(w) => w,
+        None => return Ok(()), // accepted although not representable: that is C16's business
+    };
+    if let Cfg::Fb { fci: Fci::Fir(_), .. } = cfg {
+        if got.len() != want.len() || got[..12] != want[..12] {
+            return Err(format!("FIR packet differs: got {} want {}", hex(&got), hex(&want)));
+        }
+        let mut g: Vec<&[u8]> = got[12..].chunks(8).collect();
+        let mut w: Vec<&[u8]> = want[12..].chunks(8).collect();
+        g.sort();
+        w.sort();
+        if g != w {
+            return Err(format!("FIR entries differ: got {} want {}", hex(&got), hex(&want)));
+        }
+        return Ok(());
+    }
+    if got != want {
+        return Err(format!("wire image differs: got {} want {}", hex(&got), hex(&want)));
+    }
+    Ok(())
+}
+
+/// C16: accepted exactly when representable
+pub fn c16(cfg: &Cfg) -> Result<(), String> {
+    let size = with_writer(cfg, &mut |b: &dyn RtcpPacketWriter| b.calculate_size());
+    let rep = ref_encode(cfg);
+    match (size, rep) {
+        (Ok(_), Some(_)) | (Err(_), None) => Ok(()),
+        (Ok(n), None) => Err(format!("builder accepts (size {}) a configuration that is not representable", n)),
+        (Err(e), Some(_)) => Err(format!("builder rejects a representable configuration: {:?}", e)),
+    }
+}
+
+fn rb_eq(p: &ReportBlock, b: &Rb) -> bool {
+    p.ssrc() == b.ssrc
+        && p.fraction_lost() == b.fraction
+        && p.cumulative_lost() == b.cum
+        && p.extended_sequence_number() == b.ext
+        && p.interarrival_jitter() == b.jitter
+        && p.last_sender_report_timestamp() == b.lsr
+        && p.delay_since_last_sender_report_timestamp() == b.dlsr
+}
+
+fn pad_opt(p: u8) -> Option<u8> {
+    if p == 0 {
+        None
+    } else {
+        Some(p)
+    }
+}
+
+/// what the parsed view of `bytes` must report for `cfg` (C02..C05)
+pub fn parsed_matches(cfg: &Cfg, bytes: &[u8]) -> Result<(), String> {
+    match cfg {
+        Cfg::Sr { ssrc, padding, ntp, rtp, pc, oc, blocks } => {
+            let p = SenderReport::parse(bytes).map_err(|e| format!("SR parser rejects built packet: {:?}", e))?;
+            if p.ssrc() != *ssrc || p.ntp_timestamp() != *ntp || p.rtp_timestamp() != *rtp || p.packet_count() != *pc || p.octet_count() != *oc {
+                return Err("SR fixed fields differ".into());
+            }
+            if p.padding() != pad_opt(*padding) || p.n_reports() as usize != blocks.len() {
+                return Err("SR padding / count differ".into());
+            }
+            let got: Vec<ReportBlock> = p.report_blocks().collect();
+            if got.len() != blocks.len() || !got.iter().zip(blocks).all(|(g, b)| rb_eq(g, b)) {
+                return Err("SR report blocks differ".into());
+            }
+            Ok(())
+        }
+        Cfg::Rr { ssrc, padding, blocks } => {
+            let p = ReceiverReport::parse(bytes).map_err(|e| format!("RR parser rejects built packet: {:?}", e))?;
+            if p.ssrc() != *ssrc || p.padding() != pad_opt(*padding) || p.n_reports() as usize != blocks.len() {
+                return Err("RR fields differ".into());
+            }
+            let got: Vec<ReportBlock> = p.report_blocks().collect();
+            if got.len() != blocks.len() || !got.iter().zip(blocks).all(|(g, b)| rb_eq(g, b)) {
+                return Err("RR report blocks differ".into());
+            }
+            Ok(())
+        }
+        Cfg::Bye { padding, sources, reason } => {
+            let p = Bye::parse(bytes).map_err(|e| format!("BYE parser rejects built packet: {:?}", e))?;
+            if p.padding() != pad_opt(*padding) {
+                return Err(format!("BYE padding differs: {:?}", p.padding()));
+            }
+            if p.ssrcs().collect::<Vec<u32>>() != *sources {
+                return Err("BYE sources differ".into());
+            }
+            let want = if reason.is_empty() { None } else { Some(reason.as_bytes()) };
+            if p.reason() != want {
+                return Err(format!("BYE reason differs: {:?} vs {:?}", p.reason(), want));
+            }
+            Ok(())
+        }
+        Cfg::App { ssrc, padding, subtype, name, data } => {
+            let p = App::parse(bytes).map_err(|e| format!("APP parser rejects built packet: {:?}", e))?;
+            let mut n = name.as_bytes().to_vec();
+            n.resize(4, 0);
+            if p.ssrc() != *ssrc || p.subtype() != *subtype || p.name()[..] != n[..] || p.padding() != pad_opt(*padding) {
+                return Err("APP fields differ".into());
+            }
+            if p.data() != &data[..] {
+                return Err("APP data differs".into());
+            }
+            Ok(())
+        }
+        Cfg::Sdes { padding, chunks } => {
+            let p = Sdes::parse(bytes).map_err(|e| format!("SDES parser rejects built packet: {:?}", e))?;
+            if p.padding() != pad_opt(*padding) {
+                return Err("SDES padding differs".into());
+            }
+            let got: Vec<&SdesChunk> = p.chunks().collect();
+            if got.len() != chunks.len() {
+                return Err(format!("SDES chunk count differs: {} vs {}", got.len(), chunks.len()));
+            }
+            for (g, c) in got.iter().zip(chunks) {
+                if g.ssrc() != c.ssrc {
+                    return Err("SDES chunk ssrc differs".into());
+                }
+                let gi: Vec<&SdesItem> = g.items().collect();
+                if gi.len() != c.items.len() {
+                    return Err("SDES item count differs".into());
+                }
+                for (x, i) in gi.iter().zip(&c.items) {
+                    if x.type_() != i.type_ || x.value() != i.value.as_bytes() {
+                        return Err("SDES item differs".into());
+                    }
+                    if i.type_ == 8 && x.priv_prefix() != &i.prefix[..] {
+                        return Err("SDES PRIV prefix differs".into());
+                    }
+                }
+            }
+            Ok(())
+        }
+        Cfg::Fb { transport, sender, media, padding, fci } => {
+            macro_rules! common {
+                ($p:expr) => {
+                    if $p.sender_ssrc() != *sender || $p.media_ssrc() != *media || $p.padding() != pad_opt(*padding) || $p.count() != fci_format(fci) {
+                        return Err("feedback header fields differ".into());
+                    }
+                };
+            }
+            macro_rules! fci_check {
+                ($p:expr) => {
+                    match fci {
+                        Fci::Nack(v) => {
+                            let f = $p.parse_fci::<Nack>().map_err(|e| format!("NACK FCI rejected: {:?}", e))?;
+                            let mut want = v.clone();
+                            want.sort();
+                            want.dedup();
+                            let got: Vec<u16> = f.entries().collect();
+                            if got != want {
+                                return Err(format!("NACK entries differ: {:?} vs {:?}", got, want));
+                            }
+                        }
+                        Fci::Fir(v) => {
+                            let f = $p.parse_fci::<Fir>().map_err(|e| format!("FIR FCI rejected: {:?}", e))?;
+                            let mut want: std::collections::BTreeMap<u32, u8> = Default::default();
+                            for (s, q) in v {
+                                want.insert(*s, *q);
+                            }
+                            let mut got: std::collections::BTreeMap<u32, u8> = Default::default();
+                            let mut n = 0;
+                            for e in f.entries() {
+                                got.insert(e.ssrc(), e.sequence());
+                                n += 1;
+                            }
+                            if got != want || n != want.len() {
+                                return Err("FIR entries differ".into());
+                            }
+                        }
+                        Fci::Sli(v) => {
+                            let f = $p.parse_fci::<Sli>().map_err(|e| format!("SLI FCI rejected: {:?}", e))?;
+                            // entries compare through their Debug form (fields are private): rebuild expected via builder round trip
+                            let got: Vec<String> = f.lost_macroblocks().map(|e| format!("{:?}", e)).collect();
+                            let want: Vec<String> = v
+                                .iter()
+                                .map(|(a, c, p)| format!("MacroBlockEntry {{ start: {}, count: {}, picture_id: {} }}", a, c, p))
+                                .collect();
+                            if got != want {
+                                return Err(format!("SLI entries differ: {:?} vs {:?}", got, want));
+                            }
+                        }
+                        Fci::Rpsi { pt, data, overrun } => {
+                            let f = $p.parse_fci::<Rpsi>().map_err(|e| format!("RPSI FCI rejected: {:?}", e))?;
+                            if f.payload_type() != *pt {
+                                return Err("RPSI payload type differs".into());
+                            }
+                            let (bits, ignore) = f.bit_string();
+                            // bit-for-bit: the first 8*len - overrun bits
+                            let nbits = 8 * data.len() - *overrun as usize;
+                            let gbits = 8 * bits.len() as isize - ignore as isize;
+                            if gbits != nbits as isize {
+                                return Err(format!("RPSI bit length differs: {} vs {}", gbits, nbits));
+                            }
+                            for i in 0..nbits {
+                                let a = (data[i / 8] >> (7 - i % 8)) & 1;
+                                let b = (bits[i / 8] >> (7 - i % 8)) & 1;
+                                if a != b {
+                                    return Err(format!("RPSI bit {} differs", i));
+                                }
+                            }
+                        }
+                        Fci::Pli => {
+                            $p.parse_fci::<Pli>().map_err(|e| format!("PLI FCI rejected: {:?}", e))?;
+                        }
+                    }
+                };
+            }
+            if *transport {
+                let p = TransportFeedback::parse(bytes).map_err(|e| format!("feedback parser rejects built packet: {:?}", e))?;
+                common!(p);
+                fci_check!(p);
+            } else {
+                let p = PayloadFeedback::parse(bytes).map_err(|e| format!("feedback parser rejects built packet: {:?}", e))?;
+                common!(p);
+                fci_check!(p);
+            }
+            Ok(())
+        }
+        Cfg::Unknown { .. } | Cfg::Compound(_) => Ok(()),
+    }
+}
+
+pub fn roundtrip(cfg: &Cfg) -> Result<(), String> {
+    match built(cfg) {
+        Some(b) => parsed_matches(cfg, &b),
+        None => Ok(()),
+    }
+}
+
+/// C14: compound == concatenation of members, parses back to one packet per member
+pub fn c14(cfg: &Cfg) -> Result<(), String> {
+    let members = match cfg {
+        Cfg::Compound(m) => m,
+        _ => return Ok(()),
+    };
+    let sizes: Vec<Result<usize, RtcpWriteError>> =
+        members.iter().map(|m| with_writer(m, &mut |b: &dyn RtcpPacketWriter| b.calculate_size())).collect();
+    let total = with_writer(cfg, &mut |b: &dyn RtcpPacketWriter| b.calculate_size());
+    let all_ok = sizes.iter().all(|s| s.is_ok());
+    let pad_ok = members.iter().enumerate().all(|(i, m)| i + 1 == members.len() || cfg_padding(m) == 0);
+    if total.is_ok() != (all_ok && pad_ok) {
+        return Err(format!("compound accepted = {} but members valid = {} and padding placement ok = {}", total.is_ok(), all_ok, pad_ok));
+    }
+    let total = match total {
+        Ok(t) => t,
+        Err(_) => return Ok(()),
+    };
+    let sum: usize = sizes.iter().map(|s| *s.as_ref().unwrap()).sum();
+    if total != sum {
+        return Err(format!("compound size {} != sum of members {}", total, sum));
+    }
+    let whole = built(cfg).ok_or("compound write failed")?;
+    let mut cat = vec![];
+    for m in members {
+        cat.extend(built(m).ok_or("member write failed")?);
+    }
+    if whole != cat {
+        return Err("compound bytes are not the concatenation of the member images".into());
+    }
+    if !members.is_empty() && members.iter().all(|m| !matches!(m, Cfg::Compound(_))) {
+        let c = Compound::parse(&whole).map_err(|e| format!("built compound rejected: {:?}", e))?;
+        let mut off = 0;
+        let mut k = 0;
+        for (i, item) in c.enumerate() {
+            k += 1;
+            if i >= members.len() {
+                return Err("more packets than members".into());
+            }
+            let n = *sizes[i].as_ref().unwrap();
+            let alone = Packet::parse(&whole[off..off + n]);
+            match (item, alone) {
+                (Ok(a), Ok(b)) => {
+                    if format!("{:?}", a) != format!("{:?}", b) {
+                        return Err(format!("member {} parses differently inside the compound", i));
+                    }
+                }
+                (Err(a), Err(b)) if a == b => {}
+                _ => return Err(format!("member {} outcome differs inside the compound", i)),
+            }
+            off += n;
+        }
+        if k != members.len() {
+            return Err(format!("compound yields {} packets for {} members", k, members.len()));
+        }
+    }
+    Ok(())
 }
